@@ -40,16 +40,50 @@ def layout(sc):
         if inp['reg']: ws.append({'name': 'q%d' % i, 'w': inp['w'], 'kind': 'q', 'src': i})
     for i, inp in enumerate(sc['inputs']):
         if inp['inv']: ws.append({'name': 'n%d' % i, 'w': inp['w'], 'kind': 'n', 'src': i})
+    for i, inp in enumerate(sc['inputs']):
+        if inp.get('cmp'): ws.append({'name': 'c%d' % i, 'w': 1, 'kind': 'c', 'src': i})
     if sc.get('gate'):
         ws.append({'name': 'en', 'w': 1, 'kind': 'en', 'src': len(sc['inputs'])})
     return ws
 
 
+# behavioural blocks of the harness: a 1-bit flag written with the RESULT OF A COMPARISON (a Python bool), either from
+# propagate() via put or from clock() via prepare, as testbenches and behavioural models do
+CMP = {'eq': lambda a, k: a == k, 'ne': lambda a, k: a != k, 'gt': lambda a, k: a > k, 'lt': lambda a, k: a < k}
+_cmp_classes = {}
+def cmp_classes():
+    if not _cmp_classes:
+        py4hw, _ = _imp()
+        class CmpComb(py4hw.Logic):
+            def __init__(self, parent, name, a, z, op, k):
+                super().__init__(parent, name)
+                self.a = self.addIn('a', a); self.z = self.addOut('z', z); self.op = CMP[op]; self.k = k
+            def propagate(self):
+                self.z.put(self.op(self.a.get(), self.k))
+        class CmpSeq(py4hw.Logic):
+            def __init__(self, parent, name, a, z, op, k):
+                super().__init__(parent, name)
+                self.a = self.addIn('a', a); self.z = self.addOut('z', z); self.op = CMP[op]; self.k = k
+            def clock(self):
+                self.z.prepare(self.op(self.a.get(), self.k))
+        _cmp_classes.update(comb=CmpComb, seq=CmpSeq)
+    return _cmp_classes
+
+
+def typed(v, ptype, w):
+    """the Python object handed to wire.put for the raw integer v: an int, a bool (1-bit inputs), or a numpy integer."""
+    if ptype == 'bool' and w == 1: return bool(v & 1)
+    if ptype == 'np' and w <= 32 and -(1 << 62) < v < (1 << 62):
+        import numpy as np
+        return np.int64(v)
+    return v
+
+
 def forms_of(sc, lay, k):
     x = lay[k]; inp = sc['inputs'][x['src']] if x['kind'] != 'en' else None
     if x['kind'] == 'in':
-        return ['wire'] + (['inport_reg'] if inp['reg'] else []) + (['inport_inv'] if inp['inv'] else [])
-    if x['kind'] in ('q', 'n'): return ['wire', 'outport']
+        return ['wire'] + (['inport_reg'] if inp['reg'] else []) + (['inport_inv'] if inp['inv'] else []) + (['inport_cmp'] if inp.get('cmp') else [])
+    if x['kind'] in ('q', 'n', 'c'): return ['wire', 'outport']
     return ['wire']
 
 
@@ -75,7 +109,15 @@ def gen_scenario(rng, big=False):
     for inp in inputs:                         # power-up value of the register (no reset wire: it only shows before the first edge)
         if inp['reg'] and rng.random() < .5:
             inp['rv'] = rng.choice([1, (1 << inp['w']) - 1, rng.randrange(1 << inp['w']), -1, (1 << inp['w']) + 5])
+    for inp in inputs:
+        # what kind of Python object the testbench pokes (bool for 1-bit flags, numpy integers), and an optional behavioural
+        # block that writes a 1-bit flag with the result of a comparison on this input
+        inp['ptype'] = rng.choice(['int', 'int', 'bool', 'np']) if inp['w'] == 1 else rng.choice(['int', 'int', 'np'])
+        if rng.random() < .4:
+            inp['cmp'] = {'kind': rng.choice(['comb', 'seq']), 'op': rng.choice(sorted(CMP)),
+                          'k': rng.choice([0, 1, (1 << inp['w']) - 1, rng.randrange(1 << inp['w'])])}
     sc = {'inputs': inputs, 'gate': rng.random() < .2}
+    sc['en_bool'] = rng.random() < .5            # the gating enable poked as a Python bool
     lay = layout(sc)
     ents = []
     for _ in range(rng.randint(1, 8)):
@@ -144,11 +186,14 @@ def ref_run(sc, view=None):
     inv = [0] * nin; en = 0
     # Reg.__init__ puts the masked initial value on q (repo fix 1f058fe); older trees leave q at 0 until the first edge
     q = [((sc['inputs'][i].get('rv') or 0) & mask(i)) if netlist.POWERUP_Q else 0 for i in range(nin)]
+    cs = [0] * nin                                # flags written from clock(): 0 until the first edge
+    def flag(i): c = sc['inputs'][i]['cmp']; return int(CMP[c['op']](inv[i], c['k']))
     def vals():
         out = []
         for x in lay:
             i = x['src']
-            out.append(inv[i] if x['kind'] == 'in' else q[i] if x['kind'] == 'q' else (~inv[i]) & mask(i) if x['kind'] == 'n' else en)
+            out.append(inv[i] if x['kind'] == 'in' else q[i] if x['kind'] == 'q' else (~inv[i]) & mask(i) if x['kind'] == 'n' else
+                       (flag(i) if sc['inputs'][i]['cmp']['kind'] == 'comb' else cs[i]) if x['kind'] == 'c' else en)
         return out
     uniq = []
     for k, _ in view['entries']:
@@ -173,6 +218,7 @@ def ref_run(sc, view=None):
                     g.append(vs)
                     for k in uniq: data[k].append(vs[k])
                 q = list(inv)                     # Reg: q <= d at the edge
+                cs = [flag(i) if sc['inputs'][i].get('cmp') else 0 for i in range(nin)]
         if alive:
             groups.append(g)
             checkpoints.append([(k, list(data[k])) for k in uniq])
@@ -190,6 +236,11 @@ def build_real(sc):
         for i, inp in enumerate(sc['inputs']):
             if inp['reg']: regs[i] = py4hw.Reg(hw, 'r%d' % i, byname['in%d' % i], byname['q%d' % i], reset_value=inp.get('rv'))
             if inp['inv']: invs[i] = py4hw.Not(hw, 'inv%d' % i, byname['in%d' % i], byname['n%d' % i])
+        cmps = {}
+        for i, inp in enumerate(sc['inputs']):
+            if inp.get('cmp'):
+                c = inp['cmp']
+                cmps[i] = cmp_classes()[c['kind']](hw, 'cmp%d' % i, byname['in%d' % i], byname['c%d' % i], c['op'], c['k'])
         def watch(entries):
             objs = []
             for k, form in entries:
@@ -197,7 +248,8 @@ def build_real(sc):
                 if form == 'wire': objs.append(wires[k])
                 elif form == 'inport_reg': objs.append(regs[i].inPorts[0])
                 elif form == 'inport_inv': objs.append(invs[i].inPorts[0])
-                elif form == 'outport': objs.append((regs if x['kind'] == 'q' else invs)[i].outPorts[0])
+                elif form == 'inport_cmp': objs.append(cmps[i].inPorts[0])
+                elif form == 'outport': objs.append((regs if x['kind'] == 'q' else invs if x['kind'] == 'n' else cmps)[i].outPorts[0])
                 else: raise ValueError(form)
                 assert objs[-1] is wires[k] or objs[-1].wire is wires[k]
             return objs
@@ -244,7 +296,9 @@ def impl_run(sc):
             for rec, _ in live.values(): rec.clear()
         else:
             _, n, pokes = op
-            for i, v in pokes.items(): wires[inwire[int(i)]].put(v)
+            for i, v in pokes.items():
+                inp = sc['inputs'][int(i)] if int(i) < len(sc['inputs']) else {'w': 1, 'ptype': 'bool' if sc.get('en_bool') else 'int'}
+                wires[inwire[int(i)]].put(typed(v, inp.get('ptype', 'int'), inp['w']))
             with quiet(): sim = hw.getSimulator(); sim.clk(n)
         for key, (rec, _) in live.items():
             d = rec.getDict()
